@@ -197,6 +197,18 @@ pub mod iter {
         #[verifier::external_body]
         fn to_iter(self) -> (r: Iter<T>) ensures r@.items == self@, !r@.endless { unimplemented!() }
     }
+    impl<T> ToIter<T> for crate::shims::std::collections::HashSet<T> {
+        #[verifier::external_body]
+        fn to_iter(self) -> (r: Iter<T>) ensures r@.items == self@, !r@.endless { unimplemented!() }
+    }
+    impl<'a, T> ToIter<&'a T> for &'a Vec<T> {
+        #[verifier::external_body]
+        fn to_iter(self) -> (r: Iter<&'a T>) ensures r@.items.len() == self@.len(), forall|i: int| 0 <= i < self@.len() ==> *(#[trigger] r@.items[i]) == self@[i], !r@.endless { unimplemented!() }
+    }
+    impl<T> ToIter<T> for Option<T> {
+        #[verifier::external_body]
+        fn to_iter(self) -> (r: Iter<T>) ensures r@.items == (match self { Some(t) => seq![t], None => Seq::<T>::empty() }), !r@.endless { unimplemented!() }
+    }
     /// R10: `.into_iter()` on a Vec
     pub trait IntoIterShim<T> { fn into_iter_(self) -> Iter<T>; }
     impl<T> IntoIterShim<T> for Vec<T> {
